@@ -15,7 +15,11 @@ RULE = ("(a) every edge list object the fast and custom generators return over e
 BOUNDS = {"quick": "(a) generator box of C01 restricted to <= 120 arrangements; (b) N<=3, L<=3",
           "thorough": "(a) generator box (thorough) restricted to <= 150 arrangements; (b) N<=4, L<=4"}
 ASSUMPTIONS = ["attributes of collapsed repeated pairs are unspecified by the property and not compared",
-               "hand-enumerated lists carry the joint degrees implied by their rows (zero rows for untouched vertices)"]
+               "hand-enumerated lists carry the joint degrees implied by their rows (zero rows for untouched vertices)",
+               "object histories: every hand-enumerated list is also written through the public setters into a "
+               "LightWeightEdgeList that was filled with and converted from another content before, and its network "
+               "is handed through the G setter to a Network object that was converted back before; both must behave "
+               "like fresh objects"]
 CAP = {"quick": 120, "thorough": 150}
 HAND = {"quick": (3, 3), "thorough": (4, 4)}
 
@@ -93,6 +97,71 @@ def check_roundtrip(el_obj, jds, edge_list, topologies, ids):
     return None
 
 
+def fill(el, jds, edge_list, topologies, ids):
+    el.joint_degrees = list(jds)
+    el.edge_list = [tuple(e) for e in edge_list]
+    el.topologies = list(topologies)
+    el.motif_id = list(ids)
+
+
+def reused_containers(hist, N, jds, edge_list, topologies, ids, res):
+    """Object histories: the edge list under test is written through the public setters into a LightWeightEdgeList
+    that has already been filled with, and converted from, another content (cycling: the previous content of the
+    enumeration, a larger one, a one-vertex one); likewise a Network object that has already been converted back
+    receives the graph under test through its G setter. Both must behave like fresh objects."""
+    from gcmpy.network.edge_list import LightWeightEdgeList
+    from gcmpy.network.edge_list_to_network import EdgeListToNetwork
+    from gcmpy.network.network_to_edge_list import NetworkToEdgeList
+    i = hist["i"]
+    hist["i"] += 1
+    bigger = ([(1, 1)] * 2 + [(0, 0)] * (N + 1), [(0, 1), (0, 1)], ["A", "B"], [0, 1])
+    single = ([(0, 0)], [], [], [])
+    prior = (hist["prev"] if hist["prev"] is not None else bigger, bigger, single)[i % 3]
+    hist["prev"] = (list(jds), list(edge_list), list(topologies), list(ids))
+    hist["prior"] = prior
+    if prior[:2] == (list(jds), list(edge_list)):
+        return None
+    res.count("reused_container_histories", 1)
+    res.transitions += 2
+    return reused_with_prior(prior, jds, edge_list, topologies, ids)
+
+
+def reused_with_prior(prior, jds, edge_list, topologies, ids):
+    from gcmpy.network.edge_list import LightWeightEdgeList
+    from gcmpy.network.edge_list_to_network import EdgeListToNetwork
+    from gcmpy.network.network_to_edge_list import NetworkToEdgeList
+    el = LightWeightEdgeList()
+    fill(el, *prior)
+    try:
+        prior_net = EdgeListToNetwork.convert(el)
+        NetworkToEdgeList.convert(prior_net)
+    except Exception:
+        return None   # the prior content on its own is judged where it is the content under test
+    fill(el, jds, edge_list, topologies, ids)
+    bad = check_roundtrip(el, jds, edge_list, topologies, ids)
+    if bad:
+        return ("C04:reused-edge-list-object:" + bad[0].split(":", 1)[1],
+                f"a LightWeightEdgeList first filled with jds={prior[0]} edges={prior[1]}, converted, then refilled "
+                f"through its setters: {bad[1]}")
+    # a Network object that has been converted back already, then given the graph under test
+    fresh = LightWeightEdgeList()
+    fill(fresh, jds, edge_list, topologies, ids)
+    try:
+        want = NetworkToEdgeList.convert(EdgeListToNetwork.convert(fresh))
+        prior_net.G = EdgeListToNetwork.convert(fresh).G
+        got = NetworkToEdgeList.convert(prior_net)
+    except Exception as e:
+        return ("C04:reused-network-object:raises", f"a Network re-pointed through its G setter: {e!r}")
+    def desc(x):
+        return ([tuple(r) for r in x.joint_degrees],
+                sorted((tuple(sorted(e)), repr(t), repr(m)) for e, t, m in zip(x.edge_list, x.topologies, x.motif_id)))
+    if desc(got) != desc(want):
+        return ("C04:reused-network-object:differs",
+                f"a Network that was converted back once (jds={prior[0]} edges={prior[1]}) and then re-pointed through "
+                f"its G setter converts to {desc(got)}, a fresh Network to {desc(want)}")
+    return None
+
+
 def features(jds, edge_list):
     f = set()
     if any(all(x == 0 for x in r) for r in jds):
@@ -144,6 +213,7 @@ def run_instance(inst, tier):
         return res
     from gcmpy.network.edge_list import LightWeightEdgeList
     N, L = inst["N"], inst["L"]
+    hist = {"i": 0, "prev": None}
     for rows in inst["rows"]:
         name_sets = ["AB"] + ([["", "B"]] if L <= 2 else [])   # "" is a legitimate (falsy) topology name
         for tops in [t for ns in name_sets for t in itertools.product(ns, repeat=L)]:
@@ -169,10 +239,13 @@ def run_instance(inst, tier):
                 if f:
                     res.nontrivial.add((N, rows, tops, idp))
                 bad = check_roundtrip(el, jds, list(rows), list(tops), ids)
+                if not bad:
+                    bad = reused_containers(hist, N, jds, list(rows), list(tops), ids, res)
                 if bad:
                     res.violation(bad[0], f"N={N} edge_list={list(rows)} topologies={list(tops)} ids={ids} "
                                   f"jds={jds}: {bad[1]}", {"N": N, "rows": [list(rows)]}, src="hand", jds=jds,
-                                  rows=list(rows), tops=list(tops), ids=ids)
+                                  rows=list(rows), tops=list(tops), ids=ids,
+                                  prior=[list(x) for x in hist["prior"]] if "reused" in bad[0] else None)
                     if len(res.violations) > 20:
                         return res
     if L == 3 and not res.samples:
@@ -199,6 +272,11 @@ def replay(v):
         jds = [tuple(r) for r in v["jds"]]
         el.joint_degrees = list(jds)
         bad = check_roundtrip(el, jds, el.edge_list, el.topologies, el.motif_id)
+        if not bad and v.get("prior"):
+            pr = v["prior"]
+            prior = ([tuple(r) for r in pr[0]], [tuple(e) for e in pr[1]], pr[2], pr[3])
+            print("prior content of the reused objects:", prior)
+            bad = reused_with_prior(prior, jds, [tuple(e) for e in v["rows"]], list(v["tops"]), list(v["ids"]))
     else:
         body, meta = gen_common.make_body(v["instance"], v.get("tier", "quick"), v["path"])
         leaf = engine.execute_plain(body, v["choices"], max_points=400)
